@@ -5,7 +5,8 @@ from checklib import *
 def A_field(b, cfg, mode, hcfg=None, workers=4):
     return lambda: toy_replay(b, "field", "MC_Field", cfg, mode, harness_cfg=hcfg, workers=workers)
 def B_field(b, cfg, seed, n, timeout=900):
-    return lambda: trace_validate(b, "field", "Trace_Field", cfg, seed, n, timeout=timeout)
+    bb = b.replace("vh-core", "vh-curves") if cfg.startswith("c_") else b
+    return lambda: trace_validate(bb, "field", "Trace_Field", cfg, seed, n, timeout=timeout)
 def B_field_exh(b, cfg, timeout=1200):
     return lambda: trace_validate(b, "field", "Trace_Field", cfg, 0, 0, timeout=timeout, rec_args=["--program", "exhaustive-unary"],
                                   label="B:field:%s:exhaustive-unary" % cfg)
@@ -56,7 +57,9 @@ def plan_C02(b, tier, seed):
         t += [A_field(b, c, "arith", workers=6) for c in ("f7_6", "f7_6b", "f7_12")]
         t += [A_field(b, c, "conv") for c in ("f7_2", "f7_3", "f5_4", "f7_6", "f7_6b", "f7_12")]
         t += [B_field(b, "bls12_381_fq2", seed, 1500), B_field(b, "bls12_381_fq6", seed, 600),
-              B_field(b, "bls12_381_fq12", seed, 250), B_field(b, "mnt6_753_fq3", seed, 800)]
+              B_field(b, "bls12_381_fq12", seed, 250), B_field(b, "mnt6_753_fq3", seed, 800),
+              B_field(b, "c_bls12_377_fq12", seed, 200), B_field(b, "c_bn254_fq12", seed, 200), B_field(b, "c_mnt4_298_fq4", seed, 500),
+              B_field(b, "c_mnt6_298_fq6", seed, 400), B_field(b, "c_bw6_761_fq6", seed, 300)]
     else:
         for c in ("f3_2", "f7_2", "f11_2", "f5_2", "f13_2", "f17_2", "f19_2"):
             t += [A_field(b, c, "arith", workers=6), A_field(b, c, "unary"), A_field(b, c, "conv")]
@@ -67,6 +70,9 @@ def plan_C02(b, tier, seed):
         for s in (seed, seed + 1):
             t += [B_field(b, "bls12_381_fq2", s, 12000, 1800), B_field(b, "bls12_381_fq6", s, 4000, 1800),
                   B_field(b, "bls12_381_fq12", s, 1500, 1800), B_field(b, "mnt6_753_fq3", s, 6000, 1800)]
+            t += [B_field(b, c, s, 1500, 2400) for c in ("c_bls12_377_fq2", "c_bls12_377_fq6", "c_bls12_377_fq12", "c_bn254_fq2", "c_bn254_fq6", "c_bn254_fq12",
+                  "c_mnt4_298_fq2", "c_mnt4_298_fq4", "c_mnt6_298_fq3", "c_mnt6_298_fq6", "c_mnt4_753_fq4", "c_mnt6_753_fq6", "c_bw6_761_fq3", "c_bw6_761_fq6",
+                  "c_bw6_767_fq6", "c_cp6_782_fq6", "c_bls12_381_fq12")]
     return t
 
 def A_bigint(b, nl, mode, workers=4):
@@ -91,8 +97,10 @@ def A_curve(b, cfg, mode, workers=4):
     return lambda: toy_replay(b, "curve", "MC_Curve", cfg, mode, workers=workers)
 
 def B_curve(b, cfg, seed, n, profile, timeout=1200):
+    if cfg.startswith("c_"): b = b.replace("vh-core", "vh-curves")
     return lambda: trace_validate(b, "curve", "Trace_Curve", cfg, seed, n, timeout=timeout, rec_args=["--profile", profile],
                                   label="B:curve:%s:%s:seed%d:n%d" % (cfg, profile, seed, n))
+CURVE_CRATE_CURVES = ['c_bn254_g1', 'c_bn254_g2', 'c_pallas', 'c_ed_on_cp6_782', 'c_secp384r1', 'c_secp256r1', 'c_bls12_377_g1', 'c_bls12_377_g1_te', 'c_bls12_377_g2', 'c_ed_on_bls12_381_bandersnatch_te', 'c_ed_on_bls12_381_bandersnatch_sw', 'c_cp6_782_g1', 'c_cp6_782_g2', 'c_bw6_761_g1', 'c_bw6_761_g2', 'c_curve25519', 'c_ed_on_mnt4_753', 'c_secq256k1', 'c_ed_on_mnt4_298', 'c_grumpkin', 'c_mnt6_298_g1', 'c_mnt6_298_g2', 'c_mnt4_298_g1', 'c_mnt4_298_g2', 'c_bw6_767_g1', 'c_bw6_767_g2', 'c_vesta', 'c_secp256k1', 'c_ed_on_bn254', 'c_mnt4_753_g1', 'c_mnt4_753_g2', 'c_ed_on_bls12_377', 'c_mnt6_753_g1', 'c_mnt6_753_g2', 'c_bls12_381_g1', 'c_bls12_381_g2', 'c_ed25519', 'c_ed_on_bls12_381_te', 'c_ed_on_bls12_381_sw']
 BIG_CURVES = ["bls12_381_g1", "bls12_381_g2", "secp256k1", "mnt4_753_g1", "bn384_g1", "ed_on_bls12_381"]
 
 SW_TOY = ["sw13_0_2", "sw19_0_2", "sw31_0_3", "sw13_0_4", "sw19_0_8", "sw13_1_6", "sw17_1_3", "sw13_1_4", "sw13_1_0",
@@ -120,8 +128,10 @@ def plan_C04(b, tier, seed):
     t += [A_curve(b, c, "mul") for c in cs]
     if tier == "quick":
         t += [B_curve(b, c, seed, 150, "mul") for c in BIG_CURVES]
+        t += [B_curve(b, c, seed, 80, "mul") for c in ("c_bn254_g1", "c_bls12_377_g1", "c_bls12_381_g1", "c_pallas", "c_vesta", "c_secp256k1", "c_bw6_761_g1", "c_ed_on_bls12_381_bandersnatch_te")]
     else:
         t += [B_curve(b, c, seed + k, 1500, "mul", 3000) for c in BIG_CURVES for k in range(2)]
+        t += [B_curve(b, c, seed, 400, "mul", 3000) for c in CURVE_CRATE_CURVES]
     return t
 
 def plan_C12(b, tier, seed):
@@ -129,7 +139,10 @@ def plan_C12(b, tier, seed):
     t = [A_curve(b, c, "subgroup") for c in cs]
     if tier == "quick":
         t += [B_curve(b, c, seed, 250, "subgroup") for c in BIG_CURVES]
+        t += [B_curve(b, c, seed, 120, "subgroup") for c in ("c_bls12_381_g1", "c_bls12_381_g2", "c_bls12_377_g1", "c_bls12_377_g2", "c_bn254_g2", "c_bw6_761_g1",
+                                                             "c_ed_on_bls12_381_te", "c_ed_on_bls12_381_bandersnatch_te", "c_curve25519")]
     else:
+        t += [B_curve(b, c, seed, 600, "subgroup", 3000) for c in CURVE_CRATE_CURVES]
         t += [B_curve(b, c, seed + k, 2500, "subgroup", 3000) for c in BIG_CURVES for k in range(2)]
     return t
 
